@@ -35,6 +35,11 @@ type RefResult struct {
 	Buckets   []Bucket
 	Beta      *big.Rat // documented rounding allowance for this walk
 	Exhausted bool     // ran out of liquidity before the amount was consumed
+	// Ambiguous: at some bucket end the specified amount left over was within a few 1e-18 of exactly reaching the next
+	// tick, so whether the walk continues into the next bucket is decided by the implementation's sub-1e-18 roundings;
+	// next to extreme liquidity and prices (1e26 at 1e38) that dust is worth more than the whole swap, and a two-sided
+	// comparison of per-bucket quantities is meaningless
+	Ambiguous bool
 }
 
 type tickNet struct {
@@ -89,8 +94,11 @@ func (s *Sim) RefSwap(zeroForOne, exactIn bool, amount *big.Int) RefResult {
 		}
 	}
 	inv := func(r *big.Rat) *big.Rat { return new(big.Rat).Inv(r) }
+	// the implementation's swap loop runs while more than 1e-18 of the specified amount remains: a smaller remainder is
+	// dust it deliberately leaves (next to liquidity of 1e26 at a price of 1e38 even 1e-19 of token0 costs 1e19 of token1)
+	smallest := new(big.Rat).SetFrac(big.NewInt(1), e18)
 	for _, t := range order {
-		if rem.Sign() <= 0 {
+		if rem.Cmp(smallest) <= 0 {
 			break
 		}
 		target := t.sq
@@ -109,10 +117,17 @@ func (s *Sim) RefSwap(zeroForOne, exactIn bool, amount *big.Int) RefResult {
 				giveOut = new(big.Rat).Mul(L, new(big.Rat).Sub(inv(sq), inv(target)))
 			}
 			reach := false
+			var margin *big.Rat
 			if exactIn {
-				reach = new(big.Rat).Mul(rem, oneMinusF).Cmp(needIn) >= 0
+				net := new(big.Rat).Mul(rem, oneMinusF)
+				reach = net.Cmp(needIn) >= 0
+				margin = new(big.Rat).Sub(net, needIn)
 			} else {
 				reach = rem.Cmp(giveOut) >= 0
+				margin = new(big.Rat).Sub(rem, giveOut)
+			}
+			if margin.Abs(margin).Cmp(new(big.Rat).Mul(smallest, big.NewRat(int64(4*(len(res.Buckets)+2)), 1))) <= 0 {
+				res.Ambiguous = true
 			}
 			if reach {
 				b.AmountIn, b.AmountOut = needIn, giveOut
